@@ -446,6 +446,16 @@ class Lifter:
                 if isinstance(y, tuple) and y and y[0] == 'enum' and 'allow' in str(y[1]) and y[2] in ALLOW_TABLE \
                         and isinstance(x, tuple) and x and x[0] == 'p':
                     return ('ALLOW_IS', (x, y[2]), t[1] == '==')
+            # (bits(a) & (insert | update)) == insert: the same decision spelled with the enumerators' bits; only the full mask
+            # identifies the mode (R-ALLOW-ENC checks that insert_or_update is the union of the two bits)
+            for x, y in ((t[2], t[3]), (t[3], t[2])):
+                if isinstance(x, tuple) and len(x) == 4 and x[0] == 'bin' and x[1] == '&':
+                    for u, msk in ((x[2], x[3]), (x[3], x[2])):
+                        pu = u[2] if isinstance(u, tuple) and len(u) == 3 and u[0] == 'cast' else u
+                        if isinstance(pu, tuple) and pu[:1] == ('p',) and allow_bits(msk) == frozenset(('insert', 'update')) and allow_bits(y):
+                            bits = allow_bits(y)
+                            name = 'insert_or_update' if len(bits) == 2 else next(iter(bits))
+                            return ('ALLOW_IS', (pu, name), t[1] == '==')
         if isinstance(t, tuple) and t[0] == 'hasval':
             v = t[1]
             if is_ld(v) and v[2][0] == 'fld' and v[2][2] in r.backptrs:
@@ -779,6 +789,19 @@ def unld_node(loc):
 
 
 # ---------------------------------------------------------------------------------------------- effects
+
+def allow_bits(t):
+    """the set of allow bits a constant expression over the enumerators denotes (cast(allow::insert) | cast(allow::update) ...), or None"""
+    if isinstance(t, tuple) and len(t) == 3 and t[0] == 'cast':
+        return allow_bits(t[2])
+    if isinstance(t, tuple) and len(t) == 3 and t[0] == 'enum' and 'allow' in str(t[1]):
+        return {'insert': frozenset(('insert',)), 'update': frozenset(('update',)),
+                'insert_or_update': frozenset(('insert', 'update'))}.get(t[2])
+    if isinstance(t, tuple) and len(t) == 4 and t[0] == 'bin' and t[1] == '|':
+        a, b = allow_bits(t[2]), allow_bits(t[3])
+        return (a | b) if a and b else None
+    return None
+
 
 ALLOW_TABLE = {'insert': (True, False), 'update': (False, True), 'insert_or_update': (True, True)}   # (INS_OK, UPD_OK)
 
@@ -1263,6 +1286,13 @@ class Segment:
                     # begin() != upper_bound(now): some key is <= now, so there is an entry at all
                     self.conds.append(('NONEMPTY', (), True, e[3], e[1], e[2]))
                     self.order.append(('cond', len(self.conds) - 1))
+                if kind == 'ALLOW_IS' and not truth:
+                    # every mode ruled out (the default branch of a switch over the mode / its two bits): neither bit is set
+                    ruled = set(c[1][1] for c in self.conds if c[0] == 'ALLOW_IS' and c[2] is False and c[1][0] == args[0])
+                    if ruled >= set(ALLOW_TABLE) and not any(c[0] in ('INS_OK', 'UPD_OK') for c in self.conds):
+                        for k2 in ('INS_OK', 'UPD_OK'):
+                            self.conds.append((k2, (args[0],), False, e[3], ('pred', 'insert_allowed' if k2 == 'INS_OK' else 'update_allowed', args[0]), False))
+                            self.order.append(('cond', len(self.conds) - 1))
                 if kind == 'ALLOW_IS' and truth:
                     ins, upd = ALLOW_TABLE[args[1]]
                     for k2, v2 in (('INS_OK', ins), ('UPD_OK', upd)):
